@@ -322,9 +322,11 @@ struct TokObs { int term, off, len, line, col; };
 static std::vector<TokObs> g_toks; static const char* g_base = nullptr; static std::vector<TokObs> g_made;
 template<int K> struct LexF { int operator()(std::string_view sv) const { if (++g_steps > g_step_limit) throw Horizon{}; g_made.push_back(TokObs{K, int(sv.data() - g_base), int(sv.size()), 0, 0}); return int(g_made.size()) - 1; } };
 using TVi = term_value<int>;
+static long g_accessor_mismatch = 0;   // get_sp() and get_line() / get_column() of one term value must agree
+static void check_accessors(const TVi& t) { if (t.get_sp().line != t.get_line() || t.get_sp().column != t.get_column()) ++g_accessor_mismatch; }
 struct ListF {
     int operator()() const { return 0; }
-    int operator()(int n, const TVi& t) const { if (++g_steps > g_step_limit) throw Horizon{}; TokObs o = g_made[t.get_value()]; o.line = (int)t.get_line(); o.col = (int)t.get_column(); g_toks.push_back(o); return n + 1; }
+    int operator()(int n, const TVi& t) const { if (++g_steps > g_step_limit) throw Horizon{}; check_accessors(t); TokObs o = g_made[t.get_value()]; o.line = (int)t.get_line(); o.col = (int)t.get_column(); g_toks.push_back(o); return n + 1; }
 };
 constexpr char big0[] = "AAAAAAAAAAAAAAAAAAAAAAAAAAAAAAAAAAAAAAAAAAAAAAAAAAAAAAAAAAAAAAAA";
 constexpr char big1[] = "BBBBBBBBBBBBBBBBBBBBBBBBBBBBBBBBBBBBBBBBBBBBBBBBBBBBBBBBBBBBBBBB";
@@ -341,7 +343,7 @@ struct StmtF {
     int operator()(int n, int, const TVi& semi) const { note(semi); return n + 1; }
     int operator()(int n, no_type, const TVi& semi) const { note(semi); return n + 100; }
     int operator()(const TVi& t) const { note(t); return 0; }
-    static void note(const TVi& t) { if (++g_steps > g_step_limit) throw Horizon{}; TokObs o = g_made[t.get_value()]; o.line = (int)t.get_line(); o.col = (int)t.get_column(); g_toks.push_back(o); }
+    static void note(const TVi& t) { if (++g_steps > g_step_limit) throw Horizon{}; check_accessors(t); TokObs o = g_made[t.get_value()]; o.line = (int)t.get_line(); o.col = (int)t.get_column(); g_toks.push_back(o); }
 };
 static auto make_stmt_parser() {
     static constexpr nterm<int> S("S"); static constexpr nterm<int> I("I");
@@ -528,6 +530,7 @@ template<class P> static void run_termset(P& p, const std::vector<TermSpec>& ts,
             catch (const BoundsHit& h) { thrown = h.what; }
             catch (const std::exception& e) { thrown = e.what(); }
             ctr["parses"]++; ctr[std::string(prop) + ".evals"]++;
+            if (g_accessor_mismatch) { add_viol("C10", "position-accessors-disagree", subject, in, "get_sp() of a term value differs from its get_line() / get_column()"); g_accessor_mismatch = 0; }
             if (!thrown.empty()) { add_viol(prop, "exception", subject, in, thrown); continue; }
             if (grammar_kind == 0) {
                 // list grammar: every token sequence is a sentence, so the outcome is decided by the lexer alone
